@@ -22,34 +22,34 @@ type c10Violation struct {
 }
 
 type c10Stats struct {
-	Worker            int               `json:"worker"`
-	FirstSessionSeed  uint64            `json:"first_session_seed"`
-	LastSessionSeed   uint64            `json:"last_session_seed"`
-	Sessions          int               `json:"sessions"`
-	SessionsBySource  map[string]int    `json:"sessions_by_source"`
-	SessionsByMix     map[string]int    `json:"sessions_by_mix"`
-	Ops               int               `json:"ops"`
-	OpsByKind         map[string]int    `json:"ops_by_kind"`
-	OpsSkipped        int               `json:"ops_skipped"`
-	Observations      int               `json:"observations"`
-	Compared          int               `json:"compared"`
-	ComparedGlobal    int               `json:"compared_global"`
-	DistinctKeys      int               `json:"distinct_keys"`
-	Templates         []string          `json:"templates"`
-	RulesSeen         map[string]int    `json:"rules_seen"`
-	VisitsBySite      map[string]int    `json:"visits_by_site"`
-	VisitsByMode      map[string]int    `json:"visits_by_mode"`
-	EffectiveBySite   map[string]int    `json:"effective_by_site"`
-	EffectiveSessions int               `json:"effective_sessions"`
-	EffectiveHashes   []uint64          `json:"effective_hashes"`
-	InvalidValidate   int               `json:"invalid_validate_observations"`
-	LoadErrors        int               `json:"load_error_observations"`
-	Probes            map[string]int    `json:"probes"`
-	WallS             float64           `json:"wall_s"`
-	Violations        []c10Violation    `json:"violations"`
-	Samples           []json.RawMessage `json:"samples"`
-	CanonDigest       map[string]uint64 `json:"canon_digest"`
-	OverBudgetSessions []uint64         `json:"over_budget_sessions"`
+	Worker             int               `json:"worker"`
+	FirstSessionSeed   uint64            `json:"first_session_seed"`
+	LastSessionSeed    uint64            `json:"last_session_seed"`
+	Sessions           int               `json:"sessions"`
+	SessionsBySource   map[string]int    `json:"sessions_by_source"`
+	SessionsByMix      map[string]int    `json:"sessions_by_mix"`
+	Ops                int               `json:"ops"`
+	OpsByKind          map[string]int    `json:"ops_by_kind"`
+	OpsSkipped         int               `json:"ops_skipped"`
+	Observations       int               `json:"observations"`
+	Compared           int               `json:"compared"`
+	ComparedGlobal     int               `json:"compared_global"`
+	DistinctKeys       int               `json:"distinct_keys"`
+	Templates          []string          `json:"templates"`
+	RulesSeen          map[string]int    `json:"rules_seen"`
+	VisitsBySite       map[string]int    `json:"visits_by_site"`
+	VisitsByMode       map[string]int    `json:"visits_by_mode"`
+	EffectiveBySite    map[string]int    `json:"effective_by_site"`
+	EffectiveSessions  int               `json:"effective_sessions"`
+	EffectiveHashes    []uint64          `json:"effective_hashes"`
+	InvalidValidate    int               `json:"invalid_validate_observations"`
+	LoadErrors         int               `json:"load_error_observations"`
+	Probes             map[string]int    `json:"probes"`
+	WallS              float64           `json:"wall_s"`
+	Violations         []c10Violation    `json:"violations"`
+	Samples            []json.RawMessage `json:"samples"`
+	CanonDigest        map[string]uint64 `json:"canon_digest"`
+	OverBudgetSessions []uint64          `json:"over_budget_sessions"`
 }
 
 type digestEntry struct {
@@ -132,6 +132,21 @@ func checkC10(o options) int {
 	weak := asList(inst.instrument["weak_sites"])
 	rdir := filepath.Join(scratch, "replays")
 	os.MkdirAll(rdir, 0o755)
+	// library code with goroutines/channels of its own: the simulator does not
+	// own that schedule (DESIGN.md 3.1). C10 still runs - two different outputs
+	// for the same texts are a violation whatever caused them - with scheduling
+	// jitter at the yield points, and a finding that cannot be replayed is
+	// published with replayable=false instead of being treated as my failure.
+	unownedSchedule := false
+	for _, h := range census {
+		if m, _ := h.(map[string]interface{}); m != nil && m["class"] == "concurrency" {
+			unownedSchedule = true
+		}
+	}
+	if unownedSchedule {
+		os.Setenv("VERIF_JITTER", "1")
+		logf("census: library code uses goroutines/channels (%d hits): schedule not owned, jitter on, findings may be non-replayable", len(census))
+	}
 
 	// phase 1: seeded exploration of sessions x map orders
 	res := runProcs(o.workers, func(i int) (string, []string, []string, string) {
@@ -161,7 +176,8 @@ func checkC10(o options) int {
 		if i == 0 {
 			args = append(args, "--isolate-out", isoFile, "--isolate-cap", fmt.Sprint(isoCap))
 		}
-		return inst.bin, args, nil, of
+		// every child but the first gets a heap layout and GC rhythm of its own
+		return inst.bin, args, []string{fmt.Sprintf("VERIF_BALLAST=%d", i*11)}, of
 	})
 	var canon []c10Stats
 	for _, r := range cres {
@@ -197,8 +213,9 @@ func checkC10(o options) int {
 	// had loaded and validated before): "in the same process, in a fresh process".
 	type isoMismatch struct {
 		Key      json.RawMessage `json:"key"`
-		Isolated string                 `json:"isolated_rendering"`
-		Rule     string                 `json:"rule"`
+		Isolated string          `json:"isolated_rendering"`
+		Rule     string          `json:"rule"`
+		Self     bool            `json:"self_inconsistent,omitempty"`
 	}
 	isoCompared := 0
 	var isoBad []isoMismatch
@@ -233,7 +250,7 @@ func checkC10(o options) int {
 	// phase 3: pristine (uninstrumented) build under the real runtime order
 	pres := runProcs(pristProcs, func(i int) (string, []string, []string, string) {
 		of := filepath.Join(scratch, fmt.Sprintf("c10-prist%d.json", i))
-		return prist.bin, []string{"c10-digest", "--seed", fmt.Sprint(o.seed), "--worker", "0", "--sessions", fmt.Sprint(canonSessions), "--reps", fmt.Sprint(pristReps), "--out", of, "--sources", o.sources, "--skip-sessions", skipFile}, nil, of
+		return prist.bin, []string{"c10-digest", "--seed", fmt.Sprint(o.seed), "--worker", "0", "--sessions", fmt.Sprint(canonSessions), "--reps", fmt.Sprint(pristReps), "--out", of, "--sources", o.sources, "--skip-sessions", skipFile}, []string{fmt.Sprintf("VERIF_BALLAST=%d", i*13)}, of
 	})
 	pristHung := 0
 	pristAll := map[string]*digestEntry{}
@@ -277,10 +294,11 @@ func checkC10(o options) int {
 
 	// ---- collect violations ----
 	type finalV struct {
-		class  string
-		replay string
-		what   string
-		v      *c10Violation // worker-found: where in which worker's history it happened
+		class         string
+		replay        string
+		what          string
+		v             *c10Violation // worker-found: where in which worker's history it happened
+		nonReplayable bool
 	}
 	var finals []finalV
 	seenClass := map[string]bool{}
@@ -291,7 +309,7 @@ func checkC10(o options) int {
 			}
 			seenClass[v.Class] = true
 			vv := v
-			finals = append(finals, finalV{v.Class, v.Replay, fmt.Sprint(v.Witness["first_diff_line"]), &vv})
+			finals = append(finals, finalV{v.Class, v.Replay, fmt.Sprint(v.Witness["first_diff_line"]), &vv, false})
 		}
 	}
 	// history dependence found by the isolated oracle: one witness per rule
@@ -312,7 +330,7 @@ func checkC10(o options) int {
 		if err != nil {
 			die(2, "C10: a key evaluated alone in a fresh process differs from its in-session result, but the witness did not reproduce when replayed (simulator or harness nondeterminism?):\n%s", tail(out, 10))
 		}
-		finals = append(finals, finalV{class, rf, "result depends on process history (isolated fresh-process oracle), rule " + m.Rule, nil})
+		finals = append(finals, finalV{class, rf, "result depends on process history (isolated fresh-process oracle), rule " + m.Rule, nil, false})
 	}
 	// pristine disagreement among real runs: a violation whatever caused it
 	realMulti, translationChecked := 0, 0
@@ -339,7 +357,7 @@ func checkC10(o options) int {
 			writeJSONFile(path, map[string]interface{}{"format": "verif-c10-real/1", "property": "C10", "class": class, "replayable": false,
 				"note":    "two executions of the UNINSTRUMENTED library on the same texts under the real runtime produced different results",
 				"witness": e, "verif_seed": o.seed})
-			finals = append(finals, finalV{class, path, "real-runtime disagreement on " + e.Key, nil})
+			finals = append(finals, finalV{class, path, "real-runtime disagreement on " + e.Key, nil, false})
 			continue
 		}
 		// translation check: pristine result == instrumented canonical result
@@ -360,7 +378,7 @@ func checkC10(o options) int {
 		writeJSONFile(path, map[string]interface{}{"format": "verif-c10-process/1", "property": "C10", "class": class, "replayable": false,
 			"note": "two processes with the map-order seam canonical produced different results for the same texts: a nondeterminism source the seam does not own",
 			"key":  u.key, "hash_a": u.a, "hash_b": u.b, "census": census, "verif_seed": o.seed})
-		finals = append(finals, finalV{class, path, "cross-process disagreement with canonical seam", nil})
+		finals = append(finals, finalV{class, path, "cross-process disagreement with canonical seam", nil, false})
 	}
 
 	// ---- confirm replays, attach real-runtime confirmation, publish ----
@@ -400,8 +418,14 @@ func checkC10(o options) int {
 				}
 				eout, eerr := run(scratch, nil, inst.bin, args...)
 				c := escalatedClass(eout)
-				if eerr != nil || c == "" {
+				if (eerr != nil || c == "") && unownedSchedule {
+					f.class = "disagree-unowned-schedule|" + strings.TrimPrefix(f.class, "disagree:")
+					f.nonReplayable = true
+				} else if eerr != nil || c == "" {
 					die(2, "C10: worker %d reported %s in its session %d, but neither that session alone nor the worker's whole history reproduces it in a fresh process (simulator or harness nondeterminism?):\n%s", f.v.Worker, f.class, f.v.Index, tail(eout, 10))
+				}
+				if f.nonReplayable {
+					goto decided
 				}
 				logf("class %s needed the worker's earlier sessions: %s", f.class, strings.TrimSpace(tail(eout, 1)))
 				f.class, f.replay = c, rf
@@ -414,6 +438,7 @@ func checkC10(o options) int {
 					f.class, f.replay = c, rf
 				}
 			}
+		decided:
 			if seenFinal[f.class] {
 				continue
 			}
@@ -428,7 +453,18 @@ func checkC10(o options) int {
 			continue
 		}
 		dst := filepath.Join(outDir, fmt.Sprintf("C10-seed%d-%d-%s", o.seed, unknownCount, strings.TrimPrefix(strings.TrimPrefix(filepath.Base(f.replay), "esc-"), "C10-")))
-		if strings.Contains(f.class, "disagree:") || strings.Contains(f.class, "disagree-history|") {
+		if f.nonReplayable {
+			var rp map[string]interface{}
+			if err := readJSONGeneric(f.replay, &rp); err == nil {
+				rp["class"] = f.class
+				rp["replayable"] = false
+				rp["note"] = "two executions of the same texts gave different results (witness: rendering_first / rendering_later), found while library code was running goroutines of its own; the simulator does not own that schedule, so this file documents the finding but need not reproduce it"
+				rp["census"] = census
+				rp["repo_tree"] = repoTree()
+				rp["verif_seed"] = o.seed
+				writeJSONFile(dst, rp)
+			}
+		} else if strings.Contains(f.class, "disagree:") || strings.Contains(f.class, "disagree-history|") {
 			// fresh-process confirmation of exactly the file that is published
 			out, err := run(scratch, nil, inst.bin, "c10-replay", f.replay)
 			reproduced := err != nil && strings.Contains(out, "REPRODUCED class="+f.class)
@@ -607,36 +643,36 @@ func aggregateC10(o options, stats, canon []c10Stats, wall time.Duration) map[st
 		"distinct_nontrivial": len(eff),
 		"rule": "one evaluation = one simulated session: a seeded sequence of 4-40 operations (load/fresh/first/again/query) over a pool of <=3 schema texts and <=6 document texts, every map-range execution inside the library given a simulator-chosen key order. " +
 			"A session is non-trivial when at least one map of >=2 keys was actually iterated in a non-canonical order (an 'effective' perturbation); distinct = distinct hashes of (op index, site, permutation, argument) over the session's effective visits plus its first schema and document text.",
-		"samples":                  samples,
-		"operations":               tot.Ops,
-		"operations_by_kind":       tot.OpsByKind,
-		"operations_skipped":       tot.OpsSkipped,
-		"observations":             tot.Observations,
-		"observations_compared":    tot.Compared + tot.ComparedGlobal,
-		"compared_in_session":      tot.Compared,
-		"compared_across_sessions": tot.ComparedGlobal,
-		"distinct_text_keys_max_per_worker": maxKeys,
-		"invalid_validate_observations":     tot.InvalidValidate,
-		"load_error_observations":           tot.LoadErrors,
-		"distinct_error_templates":          len(tl),
-		"error_templates":                   tl,
-		"errors_by_rule":                    tot.RulesSeen,
-		"sessions_by_source":                tot.SessionsBySource,
-		"sessions_by_mix":                   tot.SessionsByMix,
-		"map_range_executions_by_site":      tot.VisitsBySite,
+		"samples":                             samples,
+		"operations":                          tot.Ops,
+		"operations_by_kind":                  tot.OpsByKind,
+		"operations_skipped":                  tot.OpsSkipped,
+		"observations":                        tot.Observations,
+		"observations_compared":               tot.Compared + tot.ComparedGlobal,
+		"compared_in_session":                 tot.Compared,
+		"compared_across_sessions":            tot.ComparedGlobal,
+		"distinct_text_keys_max_per_worker":   maxKeys,
+		"invalid_validate_observations":       tot.InvalidValidate,
+		"load_error_observations":             tot.LoadErrors,
+		"distinct_error_templates":            len(tl),
+		"error_templates":                     tl,
+		"errors_by_rule":                      tot.RulesSeen,
+		"sessions_by_source":                  tot.SessionsBySource,
+		"sessions_by_mix":                     tot.SessionsByMix,
+		"map_range_executions_by_site":        tot.VisitsBySite,
 		"map_range_executions_by_permutation": tot.VisitsByMode,
-		"effective_perturbations_by_site":   tot.EffectiveBySite,
-		"effective_sessions":                tot.EffectiveSessions,
-		"fault_kinds_injected":              map[string]interface{}{"map_order_permutation": tot.VisitsByMode, "history_revalidation_ops": tot.OpsByKind["again"], "shared_schema_reuse_ops": tot.OpsByKind["first"] + tot.OpsByKind["query"]},
-		"probes":                            tot.Probes,
-		"probes_stuck_at_zero":              stuck,
-		"simulated_runs_per_hour":           int(perHour),
-		"simulated_time":                    "none: no code path reads a clock; logical steps are operations and map-range visits",
-		"worker_seeds":                      seeds,
-		"seed_derivation":                   "session seed = splitmix(splitmix(VERIF_SEED, worker+1000), n)",
-		"workers":                           len(stats),
-		"wall_budget_per_worker_s":          wall.Seconds(),
-		"components":                        map[string]string{"real": "every library package (lexer, parser, ast, validator, validator/rules, formatter, gqlerror), instrumented with the map-order seam; yield points inert (single task)", "harness": "session generator, dictionary oracle, renderers", "stub": "none"},
+		"effective_perturbations_by_site":     tot.EffectiveBySite,
+		"effective_sessions":                  tot.EffectiveSessions,
+		"fault_kinds_injected":                map[string]interface{}{"map_order_permutation": tot.VisitsByMode, "history_revalidation_ops": tot.OpsByKind["again"], "shared_schema_reuse_ops": tot.OpsByKind["first"] + tot.OpsByKind["query"]},
+		"probes":                              tot.Probes,
+		"probes_stuck_at_zero":                stuck,
+		"simulated_runs_per_hour":             int(perHour),
+		"simulated_time":                      "none: no code path reads a clock; logical steps are operations and map-range visits",
+		"worker_seeds":                        seeds,
+		"seed_derivation":                     "session seed = splitmix(splitmix(VERIF_SEED, worker+1000), n)",
+		"workers":                             len(stats),
+		"wall_budget_per_worker_s":            wall.Seconds(),
+		"components":                          map[string]string{"real": "every library package (lexer, parser, ast, validator, validator/rules, formatter, gqlerror), instrumented with the map-order seam; yield points inert (single task)", "harness": "session generator, dictionary oracle, renderers", "stub": "none"},
 	}
 	return map[string]interface{}{
 		"property_id": "C10", "tier": o.tier, "seed": int64(o.seed), "level": "exploration",
